@@ -8,7 +8,7 @@ PROP = "C01"
 def units(tier):
     N = 2 if tier == "quick" else 3
     n = 16 if tier == "quick" else 64
-    cnt = 60 if tier == "quick" else 500
+    cnt = 250 if tier == "quick" else 2000
     us = []
     for i in range(n):
         us.append(dict(kind="chains", typed=bool(i % 2), seed=report.seed() * 1000 + i, count=cnt, start=0, N=N, all_points=(tier == "thorough")))
